@@ -288,7 +288,8 @@ fn flushrace_worker(prop: &str, seed: u64, wid: u64, cases: u32, out: &str, know
     quiet_panics();
     flushrace::install();
     let strategy = flushrace::strategy();
-    let cfg = Config { cases, failure_persistence: None, max_shrink_iters: 60, ..Config::default() };
+    // a blocked call costs its whole deadline on every execution: hardly any shrinking for C07
+    let cfg = Config { cases, failure_persistence: None, max_shrink_iters: if want_blocked { 3 } else { 60 }, ..Config::default() };
     let mut runner = TestRunner::new_with_rng(cfg, TestRng::from_seed(RngAlgorithm::ChaCha, &seed_bytes(seed, wid, "flushrace")));
     let start = std::time::Instant::now();
     let st = std::cell::RefCell::new((0u64, HashSet::<u64>::new(), Vec::<serde_json::Value>::new(), false, 0u64));
@@ -337,7 +338,8 @@ fn flushrace_worker(prop: &str, seed: u64, wid: u64, cases: u32, out: &str, know
     let mut failure = serde_json::Value::Null;
     if let Err(TestError::Fail(reason, c)) = &res {
         let fails: Vec<String> = flushrace::run(c).unwrap_or_default().into_iter().filter(|m| keep(m)).collect();
-        failure = json!({"signature": reason.to_string(), "program": c, "violations": fails.iter().map(|f| json!({"sig": sig, "msg": f})).collect::<Vec<_>>()});
+        let sig_of = |f: &String| if f.starts_with("BLOCKED-FLUSH") { "blocked:flush-does-not-return".to_string() } else { sig.clone() };
+        failure = json!({"signature": fails.first().map(sig_of).unwrap_or(reason.to_string()), "program": c, "violations": fails.iter().map(|f| json!({"sig": sig_of(f), "msg": f})).collect::<Vec<_>>()});
     }
     let mut nt: Vec<u64> = s.1.iter().cloned().collect();
     nt.sort();
@@ -532,7 +534,7 @@ fn replay(args: &[String]) -> i32 {
                 break;
             }
         }
-        println!("{}", serde_json::to_string_pretty(&json!({"violations": fails.iter().map(|f| json!({"sig": sig, "msg": f})).collect::<Vec<_>>(), "narrative": []})).unwrap());
+        println!("{}", serde_json::to_string_pretty(&json!({"violations": fails.iter().map(|f| json!({"sig": if f.starts_with("BLOCKED-FLUSH") { "blocked:flush-does-not-return" } else { sig }, "msg": f})).collect::<Vec<_>>(), "narrative": []})).unwrap());
         return if fails.is_empty() { 0 } else { 1 };
     }
     if v["variant"].as_str().map_or(false, |s| s.starts_with("bgdeliver")) {
